@@ -28,6 +28,9 @@ Proof.
   rewrite IH. reflexivity.
 Qed.
 
+Corollary session_initial_state_irrelevant cls ops st : run_from cls st ops = map (op_result cls) ops.
+Proof. apply run_from_pure. Qed.
+
 Theorem session_history_independent fam ops :
   run_session fam ops = map (op_result (classes fam)) ops.
 Proof. unfold run_session. apply run_from_pure. Qed.
